@@ -425,13 +425,14 @@ MANIFEST_TEXT = {
         "text": "Kernel-checked for all inputs: every parse function regenerated from parser.rs is memoised and the caching macros are the "
                 "modelled ones (dropping one cache_check!, or making cache_return! conditional, breaks a generated obligation); the generated "
                 "skeleton has no left recursion (no_left_recursion); and the packrat bound is a theorem of the parser model for every token "
-                "list: at most one body execution per (nonterminal, position), misses <= 36*(tokens+1) (packrat_miss_bound), and the "
-                "recursion stays within its linear fuel (parse_top_within_fuel). The bound is also checked on the real parser's own miss/scan "
+                "list: at most one body execution per (nonterminal, position), misses <= 36*(tokens+1) (packrat_miss_bound), the "
+                "error-recovery scan - the parser's only loop outside the memo table - costs at most 2*(tokens+1) steps per executed body "
+                "(stage1_scans_le_misses, packrat_scan_bound), and the recursion stays within its linear fuel (parse_top_within_fuel). The bound is also checked on the real parser's own miss/scan "
                 "counters over 21 scaling families up to thousands of tokens, well-formed and truncated, together with measured time growth "
                 "per doubling; and the model's counters equal the implementation's on every explored sequence (C07). Time per step is "
                 "measured, not modelled.",
         "design_ref": "DESIGN.md section 4, C17",
-        "note": "Thresholds: misses <= 36*(tokens+1); scans <= 2*(tokens+1)^2; time x6 + 3 ms per doubling.",
+        "note": "Thresholds: misses <= 36*(tokens+1) (proved of the model); scans <= 2*(tokens+1)*misses (proved of the model) and <= 2*(tokens+1)^2 (measured margin); time x6 + 3 ms per doubling.",
         "technique": "Coq proof of the packrat bound and of termination for the parser model over the generated skeleton (all-memoised and no-left-recursion obligations by vm_compute) + hook counters against the bound + scaling measurement",
     },
     "C16": {
